@@ -27,6 +27,9 @@ def gen_scalar(rng):
     if k == "int":
         return rng.choice([0, 1, -1, 7, 10 ** 6, rng.randrange(-50, 50)])
     if k == "float":
+        if rng.random() < 0.06:
+            # finite floats at the ends of the range ("unbounded" sentinels such as sys.float_info.max, subnormals)
+            return rng.choice([1.7976931348623157e308, -1.7976931348623157e308, 1e305, 5e-324, -2.5e-310, 9007199254740993.0])
         return rng.choice([0.5, 1.0, -2.0, 0.123456789, 1e-7, 123456.7890123, 2.5e-6, rng.random(), round(rng.random(), 3), 1 / 3])
     if k == "str":
         return rng.choice(["", "a", "hello world", "quo\"te", "back\\slash", "new\nline", "tab\t", "unié日本", "\U0001F600", "1", "null", "NaN", " ", "lone\ud83dsurrogate", "\u2028"])
